@@ -353,6 +353,15 @@ impl<'r, 'a, 'ast> Visit<'ast> for Coll<'r, 'a> {
         }
         visit::visit_stmt(self, st)
     }
+    fn visit_field(&mut self, f: &'ast syn::Field) {
+        if self.r.opts.get("pubfields").is_some() && matches!(f.vis, syn::Visibility::Inherited) {
+            if let Some(id) = &f.ident {
+                let st = range(id.span()).start;
+                self.edits.push((st..st, "pub ".to_string()));
+            }
+        }
+        visit::visit_field(self, f)
+    }
     fn visit_generics(&mut self, g: &'ast syn::Generics) {
         // R6: monomorphisation — the generic parameter named in `strip_generic` is provided by the unit as a type alias
         if let Some(name) = self.r.opts.get("strip_generic") {
